@@ -49,6 +49,19 @@ func delayScenario(r *Rng, emit func(M), report func(Violation)) {
 		}
 		return pt, okT, ph, ok
 	}
+	// B's committed headers by height, so that a skipped past height can be submitted later ("fill-in" update)
+	recorded := map[uint64]*ibctm.Header{}
+	rec := func() {
+		h := b.LatestCommittedHeader
+		recorded[uint64(h.GetHeight().GetRevisionHeight())] = h
+	}
+	commitB := func() { coord.CommitBlock(b); rec() }
+	updateA := func() {
+		if err := p.EndpointA.UpdateClient(); err != nil {
+			panic(err)
+		}
+		rec()
+	}
 	for i := 0; i < 3; i++ {
 		bh := uint64(b.LatestCommittedHeader.GetHeight().GetRevisionHeight())
 		th := clienttypes.NewHeight(rev, bh+2)
@@ -59,26 +72,74 @@ func delayScenario(r *Rng, emit func(M), report func(Violation)) {
 		pkt := channeltypes.NewPacket(ibctesting.MockPacketData, seq, p.EndpointA.ChannelConfig.PortID, p.EndpointA.ChannelID,
 			p.EndpointB.ChannelConfig.PortID, p.EndpointB.ChannelID, th, 0)
 		for k := 0; k < 3; k++ {
-			coord.CommitBlock(b)
+			commitB()
 		}
-		if err := p.EndpointA.UpdateClient(); err != nil {
-			panic(err)
-		}
+		updateA()
 		heights := []uint64{p.EndpointA.GetClientLatestHeight().GetRevisionHeight()}
+		// leave a gap of B heights that A does not know yet, then let A learn a later one
+		for k := 0; k < 2+r.Intn(3); k++ {
+			commitB()
+		}
+		updateA()
+		heights = append(heights, p.EndpointA.GetClientLatestHeight().GetRevisionHeight())
 		done := false
 		for try := 0; try < 6 && !done; try++ {
 			// let some time / blocks pass on A
 			for w := r.Intn(4); w > 0; w-- {
 				coord.CommitBlock(a)
 			}
-			if r.Chance(0.35) {
+			if r.Chance(0.25) {
 				// A learns a newer B header: a freshly processed consensus state next to the old one
-				if err := p.EndpointA.UpdateClient(); err != nil {
-					panic(err)
-				}
+				updateA()
 				heights = append(heights, p.EndpointA.GetClientLatestHeight().GetRevisionHeight())
 			}
 			H := Pick(r, heights)
+			if r.Chance(0.4) {
+				// fill-in: a header for a skipped PAST height is submitted now; its consensus state is processed
+				// now although the client's latest consensus state was processed long ago
+				lo, hi := heights[0], heights[0]
+				for _, x := range heights {
+					if x < lo {
+						lo = x
+					}
+					if x > hi {
+						hi = x
+					}
+				}
+				var cand []uint64
+				for hgt := range recorded {
+					known := false
+					for _, x := range heights {
+						if x == hgt {
+							known = true
+						}
+					}
+					if !known && hgt > lo && hgt < hi {
+						cand = append(cand, hgt)
+					}
+				}
+				if len(cand) > 0 {
+					// deterministic choice: smallest candidate offset by a random pick over the sorted list
+					for i := range cand {
+						for j := i + 1; j < len(cand); j++ {
+							if cand[j] < cand[i] {
+								cand[i], cand[j] = cand[j], cand[i]
+							}
+						}
+					}
+					hf := Pick(r, cand)
+					hdr, err := b.IBCClientHeader(recorded[hf], clienttypes.NewHeight(rev, lo))
+					if err == nil {
+						msg, merr := clienttypes.NewMsgUpdateClient(p.EndpointA.ClientID, hdr, a.SenderAccount.GetAddress().String())
+						if merr == nil {
+							if _, serr := a.SendMsgs(msg); serr == nil {
+								heights = append(heights, hf)
+								H = hf
+							}
+						}
+					}
+				}
+			}
 			ts, okc := consTs(p.EndpointA, rev, H)
 			pt, okT, ph, okH := processed(H)
 			key := host.PacketReceiptKey(pkt.GetDestPort(), pkt.GetDestChannel(), pkt.GetSequence())
